@@ -66,6 +66,14 @@ def rot (M : Motion) (v : V3) : V3 := M.R.mulVec v
 /-- action on points -/
 def act (M : Motion) (p : V3) : V3 := add (rot M p) M.t
 
+/-- the rotation matrix of a (non-zero, not necessarily unit) quaternion `w + x i + y j + z k`: every rational
+    proper rotation is of this form; the harness draws its motions from integer quaternions -/
+def quatMat (w x y z : Rat) : Mat3 :=
+  let n := w * w + x * x + y * y + z * z
+  ⟨⟨(w * w + x * x - y * y - z * z) / n, 2 * (x * y - w * z) / n, 2 * (x * z + w * y) / n⟩,
+   ⟨2 * (x * y + w * z) / n, (w * w - x * x + y * y - z * z) / n, 2 * (y * z - w * x) / n⟩,
+   ⟨2 * (x * z - w * y) / n, 2 * (y * z + w * x) / n, (w * w - x * x - y * y + z * z) / n⟩⟩
+
 /-! ### sums, averages, argmax -/
 
 def vsum : List V3 → V3
@@ -137,7 +145,8 @@ def rabs (q : Rat) : Rat := if q < 0 then -q else q
     It is component-wise, hence NOT rotation invariant; it is reproduced for the correspondence only. -/
 def collinearErr (sq : Rat → Rat) (pts : List V3) : Bool :=
   let n := pnRaw sq pts
-  let s := ((centred pts).map (nrm sq)).getD (pnI1 sq pts) 0 * ((centred pts).map (nrm sq)).getD (pnIc sq pts) 0
+  let n1 := ((centred pts).map (nrm sq)).getD (pnI1 sq pts) 0
+  let s := n1 * n1                                    -- nrm_scaling = nrm[v1_ind] ** 2
   let atol := (1 / 100000 : Rat) * s
   decide (rabs n.x ≤ atol) && decide (rabs n.y ≤ atol) && decide (rabs n.z ≤ atol)
 
